@@ -279,6 +279,14 @@ fn run_rows<'a, T: TestDriver<Error = DriverError>>(
         }
         n += 1;
     }
+    // dropping the iterator (wherever the run stopped: at the end, at an error item, in the middle of an expansion)
+    // must not touch the driver: calls logged here are accounted for by no row, constructor or error item
+    let dropped = catch_unwind(AssertUnwindSafe(move || drop(it)));
+    flush(log);
+    match dropped {
+        Ok(()) => println!("DROPPED ok"),
+        Err(e) => println!("DROPPED panic {}", panic_msg(e)),
+    }
 }
 
 fn main() {
